@@ -35,10 +35,23 @@ def run_case(case, eng, res):
         loader.clear_overrides()
 
 
+def _time_env(path, m, rows):
+    """zone and clock of a replay (the unchanged code never looks at either; a change that does is replayed where it looked)"""
+    te = path.notes["timeenv"]
+    d = {"zone": rows[C.ev_int(m, te.zi)]["zone"]}
+    if te.reads:
+        d["clock"] = [C.ev_int(m, t) + 0.25 for t in te.reads]
+    return d
+
+
 def _run_case(case, eng, res, tools):
+    from harness import timeprops
+
+    timeprops.TIER[0] = case.get("tier", "quick")
+    rows = timeprops.rows_of(case.get("zone", "America/New_York"))
 
     def body(path):
-        timeenv.setup(path)
+        timeenv.setup(path, rows)
         s, h1, m1 = sym_time_text(path, "s", case["shd"], case["smd"])
         e, h2, m2 = sym_time_text(path, "e", case["ehd"], case["emd"])
         try:
@@ -77,6 +90,7 @@ def _run_case(case, eng, res, tools):
                 rp = {"kind": "call", "func": "schedule.tools:calc_duration", "args": a, "oracle": "C14"}
                 if case.get("via") == "schedule":
                     rp = {"kind": "c14_schedule", "args": a, "recurring": bool(case.get("recurring")), "oracle": "C14"}
+                rp.update(_time_env(path, m, rows))
                 res["violations"].append({"what": "C14 duration of %s..%s" % tuple(a), "case": case, "replay": rp})
         else:
             eng.stats.checks += 1
@@ -85,7 +99,8 @@ def _run_case(case, eng, res, tools):
         a = [C.ev_seq(mw, s), C.ev_seq(mw, e)]
         if case.get("via") == "schedule":
             continue
-        res["witnesses"].append({"replay": {"kind": "call", "func": "schedule.tools:calc_duration", "args": a, "oracle": "C14"},
+        res["witnesses"].append({"replay": dict({"kind": "call", "func": "schedule.tools:calc_duration", "args": a, "oracle": "C14"},
+                                                **_time_env(path, mw, rows)),
                                  "expected": C.conc(mw, r) if tag == "ok" else {"exception": type(r).__name__}})
         if len(res["samples"]) < 1:
             res["samples"].append({"case": case, "path_decisions": [l for l in path.labels], "witness": a,
@@ -101,6 +116,11 @@ def main(tier):
         cases = [c for c in cases if (c["smd"], c["emd"]) == (2, 2)]
     # the duration a schedule object reports (recurring or not)
     cases += [{"shd": 2, "smd": 2, "ehd": 2, "emd": 2, "via": "schedule", "recurring": rec} for rec in (False, True)]
+    # the process's zone and clock are free too (a symbolic row of the zone table, DESIGN 3.5): the duration may depend on neither
+    for c in cases:
+        c["tier"] = tier
+    extra = ["Europe/London", "Australia/Lord_Howe"] if tier == "quick" else [z for z in timeenv.ZONES if z != "America/New_York"]
+    cases += [{"shd": 2, "smd": 2, "ehd": 2, "emd": 2, "zone": z, "tier": tier} for z in extra]
     results = H.run_cases("harness.C14", "run_case", cases)
     nw = H.validate_call_witnesses(results)
     H.finish(PID, tier, "model_checking", results, t0,
